@@ -1593,6 +1593,12 @@ func (g *VCGen) ret(x *ssa.Return) {
 	for _, r := range x.Results {
 		results = append(results, g.val(r))
 	}
+	// vacuity guard: this return can be reached under the contract's assumptions (a refuted reachability means the
+	// postconditions below hold vacuously here: a contradiction in the contracts or in the engine's model)
+	if g.fc != nil && !hasProp(g.fc.Props, "deadreturns") {
+		g.obls = append(g.obls, Obligation{Block: g.oblBlock(), Name: fmt.Sprintf("vacuity.reach@ret%d", g.retCount), Kind: "cover", Guard: g.pathCond, Goal: "false", NAssert: len(g.asserts),
+			Pos: g.fn.Prog.Fset.Position(x.Pos()), Text: "this return is reachable (must be sat)", Func: g.fn.String()})
+	}
 	g.checkExit(results, x.Pos(), fmt.Sprintf("ret%d", g.retCount))
 }
 
@@ -1629,7 +1635,7 @@ func (g *VCGen) checkExit(results []SpecVal, pos token.Pos, tag string) {
 			default:
 				continue
 			}
-			g.oblige(fmt.Sprintf("preserves.%d@%s", k, tag), "frame", f, "preserved location "+g.fc.Preserves[min(k, len(g.fc.Preserves)-1)].Text, pos)
+			g.oblige(fmt.Sprintf("preserves.%d@%s", k, tag), "frame", f, fmt.Sprintf("preserved location #%d of the preserves clause (heap %s, %s)", k, l.heap, l.kind), pos)
 		}
 		return
 	}
